@@ -245,7 +245,9 @@ def run(ctx):
     # E5 ---------------------------------------------------------------------------------------
     rec = os.path.join(ctx.work, 'records.ndjson')
     tot, _ = ctx.driver(exe, ['--free', 60 if thorough else 14, '--seed', ctx.seed, '--out', rec], WHAT,
-                        label='free-running real-time records')
+                        label='free-running real-time records', timeout=300 if thorough else 120)
+    if not os.path.exists(rec):      # the driver hung / crashed before writing anything (reported above)
+        open(rec, 'w').close()
     nrec = sum(1 for _ in open(rec))
     ctx.cov['timed_records_validated'] = nrec
     ctx.sample({'record': open(rec).readline().strip()})
